@@ -55,7 +55,7 @@ def scripted_est():
 
 def classifiers(classes, cost, seed):
     from sklearn.linear_model import LogisticRegression, SGDClassifier
-    from sklearn.mixture import BayesianGaussianMixture
+    from sklearn.mixture import BayesianGaussianMixture, GaussianMixture
     from sklearn.naive_bayes import GaussianNB
     from sklearn.tree import DecisionTreeClassifier
     from skactiveml.classifier import MixtureModelClassifier, ParzenWindowClassifier, SklearnClassifier, SlidingWindowClassifier
@@ -80,6 +80,8 @@ def classifiers(classes, cost, seed):
         ("ParzenWindowClassifier[laplacian]", ParzenWindowClassifier(metric="laplacian", metric_dict={"gamma": 0.5}, **kw), False),
         ("ParzenWindowClassifier[class_prior=vector]", ParzenWindowClassifier(class_prior=[0.5 + i for i in range(len(classes))], **kw), False),
         ("MixtureModelClassifier[similarities]", MixtureModelClassifier(mixture_model=BayesianGaussianMixture(n_components=2, random_state=seed), weight_mode="similarities", class_prior=0.5, **kw), False),
+        ("MixtureModelClassifier[GaussianMixture,similarities]", MixtureModelClassifier(mixture_model=GaussianMixture(n_components=2, random_state=seed), weight_mode="similarities", **kw), False),
+        ("MixtureModelClassifier[GaussianMixture]", MixtureModelClassifier(mixture_model=GaussianMixture(n_components=2, random_state=seed), **kw), False),
         ("SlidingWindowClassifier[window=4,only_labeled]", SlidingWindowClassifier(ParzenWindowClassifier(**kw), window_size=4, only_labeled=True, **kw), False),
         ("AnnotatorEnsembleClassifier[soft]", AnnotatorEnsembleClassifier(estimators=[(f"c{i}", ParzenWindowClassifier(random_state=seed)) for i in range(2)], voting="soft", **kw), True),
         ("AnnotatorLogisticRegression[no_intercept,priors]", AnnotatorLogisticRegression(n_annotators=2, fit_intercept=False, annot_prior_full=2, annot_prior_diag=1, weights_prior=0.5, max_iter=20, **kw), True),
@@ -109,6 +111,10 @@ def run(ctx):
         seed = int(rng.integers(0, 1000))
         n = int(rng.integers(4, 12))
         X = rng.normal(size=(n, 2)) + rng.integers(0, 2, size=(n, 1)) * 3
+        if h % 4 == 1:          # exact replicates of a few points (mixture components collapse onto them; zero distances / kernel ties)
+            base = rng.normal(size=(int(rng.integers(2, 4)), 2)) * 2
+            X = base[rng.integers(0, len(base), size=n)]
+            X[: len(base)] = base
         scen = str(rng.choice(["normal", "no_labels", "one_label", "one_class", "unseen", "weights"]))
         present = sorted_cls if scen in ("normal", "weights", "one_label") else ([] if scen == "no_labels" else sorted_cls[:1] if scen == "one_class" else sorted_cls[:-1])
         str_lab = isinstance(classes[0], str)
@@ -119,7 +125,7 @@ def run(ctx):
             yv[int(rng.integers(n))] = sorted_cls[int(rng.integers(K))]
         y = np.array(yv, dtype=(str if str_lab else float)) if not str_lab else np.array(yv)
         sw = rng.choice([0.0, 1.0, 1e6, 0.5], size=n) if scen == "weights" else None
-        Xq = np.vstack([X[:3], rng.normal(size=(2, 2)) * 50])
+        Xq = np.vstack([X if h % 4 == 1 else X[:3], rng.normal(size=(2, 2)) * 50])
         for name, clf, multi in classifiers(classes, cost, seed):
             clf.set_params(missing_label=missing)
             if "estimators" in clf.get_params():
